@@ -39,6 +39,7 @@ import phonopy
 from phonopy import Phonopy
 import phonopy.api_phonopy as api_phonopy
 from phonopy.harmonic.displacement import get_least_displacements
+from phonopy.harmonic.force_constants import compact_fc_to_full_fc, full_fc_to_compact_fc
 
 ID = [[1, 0, 0], [0, 1, 0], [0, 0, 1]]
 HEX3 = [[2, -1, 0], [-1, 2, 0], [0, 0, 3]]
@@ -100,7 +101,7 @@ FD_HYP = ["HypReps", "HypPermSym", "HypTransInv", "HypPTrans", "HypSpaceGroup", 
 FD_MODEL_REQ = ["Sufficient", "Consistent", "CoverAll", "RepsInP2S", "SpanAtoms", "PlusMinusAtoms",
                 "FCExactSolved", "FCExactFull", "FCExactCompact"]
 FD_IMPL = ["ImplNoError", "ImplCoverAll", "ImplMapAtoms", "ImplSiteSound", "ImplSpan", "ImplPlusMinus", "ImplP2S",
-           "ImplFCExact"]
+           "ImplFCExact", "ImplConvertExact"]
 FD_CONF = ["ConformsReps", "ConformsNumOps", "ConformsSite"]
 
 CFG_FDTRACE = ("SPECIFICATION Spec\nCONSTANTS\n Sessions <- MCSessions\n PMs <- MCPMs\n Diags <- MCDiags\n Syms <- MCSyms\n"
@@ -199,10 +200,10 @@ def record_run(real, cell, S, prim, opts, ref_int):
     sym, diag, pm, layout, dist = opts
     n = len(cell["atoms"])
     run = dict(sym=sym, diag=diag, pm=pm, layout=layout, nops=0, reps=[], mapa=[], site=[], dirs=[], p2s=[], fc=0,
-               exact=False, err="")
+               exact=False, conv=0, convexact=False, err="")
     info = dict(opts=dict(is_symmetry=sym, is_diagonal=diag, is_plusminus=pm, layout=layout, distance=dist))
     devs = []
-    arr = None
+    arr = arr2 = None
     try:
         with contextlib.redirect_stdout(io.StringIO()):
             ph = Phonopy(real.unitcell(), supercell_matrix=S, primitive_matrix=prim, is_symmetry=sym, log_level=0)
@@ -255,18 +256,30 @@ def record_run(real, cell, S, prim, opts, ref_int):
             T, resid = real.project(fc, None, idx)
             fc_exp = fc_ref[p2s_real]
         arr = T
+        # layout conversion of what was produced (compact_fc_to_full_fc uses distribute_force_constants_by_translations)
+        inv = np.empty(n, dtype=int)
+        inv[np.array(idx)] = np.arange(n)
+        if layout == "full":
+            cv = full_fc_to_compact_fc(ph.primitive, fc)
+            arr2, resid2 = real.project(cv, None, idx)
+        else:
+            cv = compact_fc_to_full_fc(ph.primitive, fc.copy())
+            arr2, resid2 = real.project(cv, None, idx)
+            arr2 = arr2[inv]
+        run["convexact"] = bool(resid2 < TOL_PROJ)
+        info["resid_conv"] = resid2
         scale = float(np.abs(fc_ref).max())
         info.update(resid=resid, maxdiff_rel=float(np.abs(fc - fc_exp).max() / scale), n_disp=len(rows))
         run["exact"] = bool(resid < TOL_PROJ)
     except Exception as e:  # an exception of the real code where the specification expects success
         run["err"] = type(e).__name__ + ": " + str(e)[:120]
         info["traceback"] = traceback.format_exc()[-1500:]
-    return run, info, arr, devs
+    return run, info, (arr, arr2), devs
 
 
-def gen_sessions(ctx):
+def gen_sessions(ctx, only=None):
     """Steps B + C."""
-    specs = sessions_for(ctx.tier)
+    specs = sessions_for(ctx.tier) if only is None else [only]
     sess = [dict(entry=e, model=m, S=S, ptrans=PRIM[p][1], prim=PRIM[p][0], pname=p, nonsym=ns, box=3)
             for e, m, S, p, ns in specs]
     cells, crystals = c01_ref.reference(sess, ctx=ctx)
@@ -277,7 +290,9 @@ def gen_sessions(ctx):
     infos = {}
     for si, s in enumerate(sess):
         cell = cells[c01_ref.skey(s)]
-        real = c01_ref.Realised(crystals[s["entry"]], a=2.0, seed=ctx.seed * 1000 + si)
+        # every second crystal on a left-handed lattice (det L < 0)
+        real = c01_ref.Realised(crystals[s["entry"]], a=2.0, seed=ctx.seed * 1000 + si, left_handed=bool((si + ctx.seed) % 2))
+        s["left_handed"] = real.left_handed
         ref_int = np.array(cell["fc"], dtype=np.int64)
         arrays = [ref_int]
         runs = []
@@ -286,17 +301,18 @@ def gen_sessions(ctx):
             combos = combos[::2] if si % 2 else combos[1::2]
         for sym, diag, pm, layout in combos:
             dist = next(dist_cycle)
-            run, info, arr, devs = record_run(real, cell, s["S"], s["prim"], (sym, diag, pm, layout, dist), ref_int)
-            if arr is not None:
+            run, info, (arr, arr2), devs = record_run(real, cell, s["S"], s["prim"], (sym, diag, pm, layout, dist), ref_int)
+            for fld, a1 in (("fc", arr), ("conv", arr2)):
+                if a1 is None:
+                    run[fld] = 1
+                    continue
                 for k, a0 in enumerate(arrays):
-                    if a0.shape == arr.shape and np.array_equal(a0, arr):
-                        run["fc"] = k + 1
+                    if a0.shape == a1.shape and np.array_equal(a0, a1):
+                        run[fld] = k + 1
                         break
                 else:
-                    arrays.append(arr)
-                    run["fc"] = len(arrays)
-            else:
-                run["fc"] = 1
+                    arrays.append(a1)
+                    run[fld] = len(arrays)
             runs.append(run)
             infos[(si, len(runs))] = info
             all_devs.extend(devs)
@@ -415,7 +431,24 @@ def witness_session(tr):
     return None
 
 
+def load_replay(ctx):
+    """./check C01 --replay <file>: re-run exactly the failing input of a replay file."""
+    if not ctx.replay_path:
+        return None
+    with open(ctx.replay_path) as f:
+        rp = json.load(f)
+    key, d = rp.get("key", ""), rp.get("detail") or {}
+    if key.startswith("session:") or key.startswith("tlc:FiniteDifference"):
+        prim = d.get("primitive") or "P"
+        return ("session", (d["entry"], d["model"], [list(r) for r in d["S"]], prim, False))
+    if key.startswith("disptrace:") or key.startswith("replay:Displacements"):
+        ev = d.get("event") or d
+        return ("event", dict(site=ev["site"], diag=ev["diag"], pm=ev["pm"], trig=ev["trig"], out=ev.get("out", [])))
+    return ("model", None)
+
+
 def run(ctx):
+    rp = load_replay(ctx)
     ctx.rule = ("A: one case per (subgroup of an ambient point group in a basis, direction list, order, plus/minus mode, "
                 "trigonal flag); C/E: one case per real session (catalogue crystal, harmonic model, supercell matrix, "
                 "primitive matrix, is_symmetry, is_diagonal, plus/minus, layout); D: one case per distinct "
@@ -425,8 +458,8 @@ def run(ctx):
     # ---- A: the direction search on every subgroup -----------------------------------------------------
     amb = AMB_QUICK if ctx.quick else AMB_THOROUGH
     groups = [amb] if ctx.quick else [amb[:4], amb[4:7], amb[7:]]
-    if os.environ.get("C01_SKIP_MODEL"):      # experiments only (mutation runs): the model does not see the code
-        groups = []
+    if os.environ.get("C01_SKIP_MODEL") or (rp and rp[0] != "model"):
+        groups = []      # C01_SKIP_MODEL: experiments only (mutation runs; the model does not see the code)
     behaviours = []
     for gi, g in enumerate(groups):
         mc = ("---- MODULE MC_Displacements ----\nEXTENDS Displacements\nMCAmb == %s\nMCPMs == {\"auto\", \"on\", \"off\"}\n"
@@ -459,8 +492,14 @@ def run(ctx):
     ctx.extra["subgroups_enumerated"] = len({(b["amb"], tuple(b["grp"])) for b in behaviours})
 
     # ---- B + C: reference crystals, real sessions ------------------------------------------------------
-    sess, infos, devs = gen_sessions(ctx)
+    if rp and rp[0] == "session":
+        sess, infos, devs = gen_sessions(ctx, only=rp[1])
+    elif rp:
+        sess, infos, devs = [], {}, []
+    else:
+        sess, infos, devs = gen_sessions(ctx)
     ctx.extra["sessions"] = [dict(entry=s["entry"], model=s["model"], S=s["S"], primitive=s["pname"], natom=s["natom"],
+                                  left_handed=s["left_handed"],
                                   runs=len(s["runs"]), distinct_arrays=len(s["arrays"])) for s in sess]
     resids = [i["resid"] for i in infos.values() if "resid" in i]
     diffs = [i["maxdiff_rel"] for i in infos.values() if "maxdiff_rel" in i]
@@ -469,7 +508,9 @@ def run(ctx):
     ctx.extra["projection_tolerance"] = TOL_PROJ
 
     # ---- D: displacement traces -------------------------------------------------------------------------
-    revs, used, skipped = repo_disp_events(ctx)
+    revs, used, skipped = repo_disp_events(ctx) if not rp else ([], [], [])
+    if rp and rp[0] == "event":
+        behaviours = [rp[1]]
     # spec -> code: the real search is driven on the groups TLC enumerated (all of them in the thorough tier,
     # a seeded third in the quick tier); what it returns is validated like every other recorded search
     if ctx.quick and len(behaviours) > 1500:
@@ -483,7 +524,8 @@ def run(ctx):
     ctx.extra["repo_skipped"] = skipped[:20]
     for e in events:
         ctx.count(("disp", json.dumps(e, sort_keys=True)))
-    ctx.sample(dict(kind="displacement event", **events[0]))
+    if events:
+        ctx.sample(dict(kind="displacement event", **events[0]))
     chunk = 4000
     for c0 in range(0, len(events), chunk):
         evs = events[c0:c0 + chunk]
@@ -560,7 +602,8 @@ def run(ctx):
             else:
                 ctx.extra.setdefault("SPEC-DRIFT", []).append(detail)
                 print("SPEC-DRIFT C01: %s on %s (requirement intact)" % (nme, key[1]))
-    ctx.sample(dict(kind="session", entry=sess[0]["entry"], model=sess[0]["model"], S=sess[0]["S"],
+    if sess:
+      ctx.sample(dict(kind="session", entry=sess[0]["entry"], model=sess[0]["model"], S=sess[0]["S"],
                     run=sess[0]["runs"][0] and {k: v for k, v in sess[0]["runs"][0].items() if k not in ("site", "mapa")}))
     ctx.assumptions.append("harmonic reference crystals: catalogue pair springs + three-body angle terms (AngleSprings.tla); "
                            "forces are F = -Phi u evaluated in binary64 from the exact integer reference")
